@@ -78,6 +78,20 @@ def run(repo: Repo, rep: Report):
 
 
 # --------------------------------------------------------------------------------------------
+def _positive_step(node, body, depth=0) -> bool:
+    """The expression is a positive constant on every evaluation: a literal, a conditional expression between such, or a name whose
+    only assignments in the loop body are such expressions."""
+    if isinstance(node, ast.Constant):
+        return isinstance(node.value, (int, float)) and not isinstance(node.value, bool) and node.value > 0
+    if isinstance(node, ast.IfExp):
+        return _positive_step(node.body, body, depth) and _positive_step(node.orelse, body, depth)
+    if isinstance(node, ast.Name) and depth < 2:
+        assigns = [a for st in body for a in ast.walk(st) if isinstance(a, (ast.Assign, ast.AugAssign, ast.AnnAssign, ast.NamedExpr, ast.For))
+                   and node.id in {x.id for t in (a.targets if isinstance(a, ast.Assign) else [a.target]) for x in ast.walk(t) if isinstance(x, ast.Name)}]
+        return bool(assigns) and all(isinstance(a, ast.Assign) and len(a.targets) == 1 and isinstance(a.targets[0], ast.Name) and _positive_step(a.value, body, depth + 1) for a in assigns)
+    return False
+
+
 def _is_endless_iter(it) -> bool:
     return isinstance(it, ast.Call) and (call_name(it) in ("itertools.count", "count", "itertools.cycle", "cycle") or (call_name(it) in ("itertools.repeat", "repeat") and len(it.args) == 1))
 
@@ -184,8 +198,7 @@ def _classify_while(repo, folder, rep: Report, mod: Module, q: str, fn, loop: as
         idx = loop.test.left.id
         bound_names = _names(loop.test.comparators[0])
         writes = _assigned_names(ast.Module(body=loop.body, type_ignores=[]))
-        incs = [s for s in must if isinstance(s, ast.AugAssign) and isinstance(s.op, ast.Add) and unparse(s.target) == idx and isinstance(s.value, ast.Constant)
-                and isinstance(s.value.value, (int, float)) and s.value.value > 0]
+        incs = [s for s in must if isinstance(s, ast.AugAssign) and isinstance(s.op, ast.Add) and unparse(s.target) == idx and _positive_step(s.value, loop.body)]
         other = [n for n in ast.walk(ast.Module(body=loop.body, type_ignores=[])) if isinstance(n, (ast.Assign, ast.AugAssign)) and idx in
                  {x.id for t in (n.targets if isinstance(n, ast.Assign) else [n.target]) for x in ast.walk(t) if isinstance(x, ast.Name)} and n not in incs]
         if incs and not other and not (bound_names & writes):
